@@ -156,7 +156,7 @@ NSH = max(2, min(12, NCPU - 4))
 # (cfg, simulate, depth, number of TLC processes)
 CONFIGS = {
     "quick": [("PatternQ.cfg", None, None, NSH)],
-    "thorough": [("PatternT.cfg", None, None, NSH), ("PatternT4.cfg", None, None, NSH), ("PatternSim.cfg", "num=300", 9, 1)],
+    "thorough": [("PatternT.cfg", None, None, NSH), ("PatternT4.cfg", None, None, NSH), ("PatternSim.cfg", "num=1000", 9, 1)],
 }
 GOENV2 = {"GOMAXPROCS": "2"}     # the driver is single-threaded work; fewer Go scheduler threads on a busy machine
 CHUNK = 400      # cases per Lua chunk
@@ -390,7 +390,7 @@ def run(prop, tier, only=None, corrupt=None, cpu=True):
         cov["states"] += tot["distinct"]
         cov["transitions"] += tot["generated"]
         cov["configs"].append({"cfg": cfg, "shards": shards, "distinct": tot["distinct"], "generated": tot["generated"], "cases": tot["n"],
-                               "mismatching_calls": tot["bad"], "shard_wall_s": [a["wall"] for a in results],
+                               "mismatching_calls": tot["bad"], "shard_wall_s": [a["wall"] for a in results], "shard_cases": [a["n"] for a in results],
                                "total_s": round(time.time() - t0, 1)})
         log("[%s] %s: %d shards, %d cases, %d mismatching calls, %.0fs" % (prop, cfg, shards, tot["n"], tot["bad"], time.time() - t0))
     if dump:
